@@ -12,7 +12,7 @@ structure Cfg (L K : Type) where
   isTag : L → Bool
   /-- `CleanUpLine(line)` (l.127, l.168) -/
   key : L → K
-  /-- replace-mode filter (l.169): `cleaned_up_line in tagline and PREFIX in cleaned_up_line`,
+  /-- replace-mode filter: `is_tag_line and cleaned_up_line in tagline and PREFIX in cleaned_up_line`,
       first argument the remembered `tagline`, second the current line -/
   keep : L → L → Bool
 
@@ -38,6 +38,11 @@ end Tags
 section
 variable {L K : Type} [DecidableEq K]
 
+/-- `Emplace` l.171–177: the table entry a line selects — only a line that carries the tag
+    prefix is a tag line (fix 404b694), and then its cleaned form is looked up -/
+def Cfg.lookup (c : Cfg L K) (t : Tags L K) (l : L) : Option (List L) :=
+  if c.isTag l then Tags.get? t (c.key l) else none
+
 /-- `CollectFile` l.102–128. State: `none` = not preserving; `some (k, revBody)`. An
     unterminated block is dropped (the dict entry is only written at the closing tag). -/
 def collectAux (c : Cfg L K) : List L → Option (K × List L) → Tags L K → Tags L K
@@ -56,11 +61,11 @@ def collect (c : Cfg L K) (ls : List L) : Tags L K := collectAux c ls none []
 def emplaceAux (c : Cfg L K) (t : Tags L K) (replace : Bool) : List L → Option L → List L
   | [], _ => []
   | l :: ls, none =>
-      match t.get? (c.key l) with
+      match c.lookup t l with
       | some b => l :: (b ++ emplaceAux c t replace ls (some l))
       | none => l :: emplaceAux c t replace ls none
   | l :: ls, some tl =>
-      let rest := match t.get? (c.key l) with
+      let rest := match c.lookup t l with
         | some _ => emplaceAux c t replace ls none
         | none => emplaceAux c t replace ls (some tl)
       if !replace || c.keep tl l then l :: rest else rest
@@ -72,11 +77,11 @@ def emplaceReplace (c : Cfg L K) (t : Tags L K) (ls : List L) : List L := emplac
 def usedAux (c : Cfg L K) (t : Tags L K) : List L → Bool → List K
   | [], _ => []
   | l :: ls, false =>
-      match t.get? (c.key l) with
+      match c.lookup t l with
       | some _ => c.key l :: usedAux c t ls true
       | none => usedAux c t ls false
   | l :: ls, true =>
-      match t.get? (c.key l) with
+      match c.lookup t l with
       | some _ => usedAux c t ls false
       | none => usedAux c t ls true
 
@@ -114,8 +119,8 @@ def Item.okOld (c : Cfg L K) : Item L → Prop
 
 /-- what a freshly expanded file must look like relative to a tag table `t` -/
 def Item.okNew (c : Cfg L K) (t : Tags L K) : Item L → Prop
-  | .text l => t.get? (c.key l) = none
-  | .block o cl b => c.key cl = c.key o ∧ ∀ x ∈ b, t.get? (c.key x) = none
+  | .text l => c.lookup t l = none
+  | .block o cl b => c.isTag o = true ∧ c.isTag cl = true ∧ c.key cl = c.key o ∧ ∀ x ∈ b, c.lookup t x = none
 
 /-- insert the preserved body directly after the opening tag -/
 def Item.fill (c : Cfg L K) (t : Tags L K) : Item L → Item L
@@ -154,14 +159,14 @@ def blockKeys (c : Cfg L K) (D : List (Item L)) : List K := Tags.keys (blocksOf 
 
 /-- A freshly expanded file (before it is written) that can be regenerated over:
     empty tag pairs whose two lines clean to the same key, stable under the output
-    filter `norm`; ordinary text lines are no tag lines and do not clean to a tag key. -/
-def Item.freshOK (c : Cfg L K) (norm : L → L) (keys : List K) : Item L → Prop
-  | .text l => c.isTag l = false ∧ c.key l ∉ keys
+    filter `norm`; ordinary text lines are no tag lines. -/
+def Item.freshOK (c : Cfg L K) (norm : L → L) : Item L → Prop
+  | .text l => c.isTag l = false
   | .block o cl b => b = [] ∧ c.isTag o = true ∧ c.isTag cl = true ∧ c.key cl = c.key o
       ∧ c.key (norm o) = c.key o ∧ c.key (norm cl) = c.key o
 
 structure FreshDoc (c : Cfg L K) (norm : L → L) (F : List (Item L)) : Prop where
-  items : ∀ it ∈ F, it.freshOK c norm (blockKeys c F)
+  items : ∀ it ∈ F, it.freshOK c norm
   nodup : (blockKeys c F).Nodup
 
 /-- what the output filter must satisfy (proved for TAB expansion in `Lemmas/Str`) -/
